@@ -234,3 +234,50 @@ MANIFEST_TEXT["C15"] = {
     "text": "Narrow is an action of the specification (a new holder that knows only the presented disclosures applies SelH again); TLC checks Inv_C15 (the chain's result equals the direct "
             "selection from the issued SD-JWT) and Inv_C01 on all chains of the bounded universe. Chains are replayed on real holders, each step paired with the direct selection, and validated by TLC.",
     "note": _NOTE, "technique": "TLA+ bounded model checking (TLC) + scenario replay + trace validation of paired presentations"}
+
+
+def _order_leak(merged):
+    a = merged["agg"]
+    n, mo, dl = a.get("n", 0), a.get("mo", 0), a.get("dl", 0)
+    if n < 200:
+        raise RuntimeError(f"order-leak clause not exercised: only {n} _sd lists with >= 2 real digests")
+    return (not (mo == n or dl == n)), f"n={n} lists in member order={mo} decoys last={dl}"
+
+
+PLANS["C12"] = P(
+    "model_checking",
+    ["issue.decoys", "issue.refs", "issue.exact", "present.exact", "verify.view", "verify.accept", "order.leak"],
+    [RT],
+    [REPLAY_RT_Q, {"driver": "rich", "args": {"n": 500, "depth": 5, "arbsel": 0, "decoy": 1}}, {"driver": "rich", "args": {"n": 500, "depth": 4, "only": "issue", "decoy": 1}}],
+    [REPLAY_RT_T, {"driver": "rich", "args": {"n": 10000, "depth": 8, "arbsel": 0, "decoy": 1}}, {"driver": "rich", "args": {"n": 30000, "depth": 6, "only": "issue", "decoy": 1}}],
+    required={"issue.decoys": 1000, "verify.view": 500},
+    aggregate={"order.leak": _order_leak},
+    nontrivial_event="Issue",
+    rule="cases = issuances with decoys on (and off, from the model's replay): per object of the claims and of every disclosed value the number of unmatched digests (>= 1 / = 0), "
+         "digest shape, pairwise distinctness of all digests of a credential, holder selection and verified claims equal to the decoy-free oracle; run-level: over all _sd lists with "
+         ">= 2 real digests, not all in member order and not all with decoys last (needs >= 200 lists); distinct = distinct (claims, strategy, decoy flag)",
+    assumptions=_A,
+)
+MANIFEST_TEXT["C12"] = {
+    "text": "The refinement mapping counts unmatched digests per object (`un`); TLC proves MinUn = k / = 0 and that holder and verifier results do not depend on decoys on the bounded model. On "
+            "implementation traces TLC evaluates issue.decoys (every claims object, also inside disclosed values), digest shape and uniqueness, verify.view, and accumulates the order statistics.",
+    "note": _NOTE + " The order clause is statistical (false-alarm probability < 2^-100 for sorted or shuffled lists).", "technique": "TLA+ refinement mapping checked by TLC on model and traces + run-level aggregate"}
+PLANS["C14"] = P(
+    "exploration",
+    ["salts.drawn", "salts.unique", "salts.decoys.unique", "salts.length", "salts.bits", "salts.digest", "issue.salts", "issue.refs"],
+    [{"module": "MC_salt", "quick": "MC_salt_quick.cfg", "thorough": "MC_salt.cfg", "timeout": {"quick": 120, "thorough": 600}}],
+    [{"driver": "threads", "scn": "MC_salt", "args": {"n": 3, "scale": 40, "configs": "16x60"}}, {"driver": "rich", "args": {"n": 300, "depth": 4, "only": "issue"}}],
+    [{"driver": "threads", "scn": "MC_salt", "args": {"n": 8, "scale": 400, "configs": "1x3000,2x3000,4x3000,8x3000,12x2000,16x2000"}}, {"driver": "rich", "args": {"n": 5000, "depth": 6, "only": "issue"}}],
+    required={"salts.unique": 4, "salts.bits": 3, "issue.salts": 200},
+    nontrivial_event="Salts",
+    rule="cases = runs of 1..16 threads, each thread re-using one issuer instance and issuing the same (even threads) or different (odd threads) claims under AllLevels with decoys, in whatever "
+         "interleaving the scheduler produces; per run and over the union of all runs: all salts pairwise distinct, all decoy digests pairwise distinct, every salt base64url of >= 16 bytes, "
+         "every embedded digest = SHA-256 of the disclosure text, per-bit frequency of the first 128 salt bits within 8 sigma; distinct = distinct (threads, issuances) configurations. "
+         "Thread configurations come from the behaviours of MC_salt, scaled up",
+    assumptions=_A + ["'unpredictable' is not decidable by observation: a unique, balanced but predictable generator would pass (DESIGN.md section 6)"],
+)
+MANIFEST_TEXT["C14"] = {
+    "text": "MC_salt defines freshness operationally (threads drawing in any interleaving never obtain a value twice; TLC checks every schedule of the bounded model). The implementation is "
+            "observed under 1..16 real threads; TLC judges the run-level clauses (uniqueness through a checked grouping, length, bit balance, digest relation). Level exploration: schedules "
+            "of real threads cannot be enumerated and unpredictability cannot be observed.",
+    "note": _NOTE, "technique": "TLA+ model of salt freshness (TLC) + trace validation of multi-threaded runs (statistical)"}
